@@ -456,7 +456,62 @@ def campaign_random(ctx):
 campaign_random.shards = (8, 16)
 
 
-CAMPAIGNS = {"enum8": campaign_enum8, "enum16": campaign_enum16, "random": campaign_random}
+# ---------------------------------------------------------------------------------------------
+# a read-to-end member behind bit fields that stop anywhere in a byte: the streaming region must hand it exactly the remaining
+# bits (those already decoded and waiting included), like the pre-read region does
+# ---------------------------------------------------------------------------------------------
+def greedy_oracle(ctx):
+    from construct.lib import bits2bytes, bytes2bits
+
+    def oracle(case):
+        fields, data = case
+        total = sum(width(f) for f in fields)
+        nbits = 8 * len(data)
+        if total > nbits:
+            return None
+        rest_bits = nbits - total
+        acc = int.from_bytes(data, "big")
+        want_vals = model_parse(fields, acc >> rest_bits, total)
+        want_rest = bytes((acc >> (rest_bits - 1 - i)) & 1 for i in range(rest_bits))
+
+        def inner():
+            st_, _ = make(fields, False)
+            return C.Struct(*(list(st_.subcons) + ["rest" / C.GreedyBytes]))
+        impls = [("streaming", C.Bitwise(inner())), ("pre-read", C.Transformed(inner(), bytes2bits, None, bits2bytes, None))]
+        ctx.record(case, total % 8 != 0, ["greedytail/" + ("unaligned" if total % 8 else "aligned"), "greedytail/rest=%d" % min(rest_bits, 16)])
+        for name, con in impls:
+            o = call(con.parse, data)
+            if not o.ok:
+                return Failure("C10/greedytail/parse-raises/%s" % name, "%s parse(%s) raised %r | fields=%s" % (name, data.hex(), o, fields))
+            got = from_container(fields, o.value)
+            if got != want_vals or o.value.rest != want_rest:
+                return Failure("C10/greedytail/parse-value/%s" % name, "%s parse(%s) -> %s + rest %s, big-integer model %s + rest %s | fields=%s" % (
+                    name, data.hex(), got, o.value.rest.hex(), want_vals, want_rest.hex(), fields))
+            b = call(con.build, o.value)
+            canon_fields, _ = model_build(fields, [0 if v is None else v for v in _fill(fields, want_vals)])
+            want_bytes = ((canon_fields << rest_bits) | (acc & ((1 << rest_bits) - 1))).to_bytes(len(data), "big") if data else b""
+            if not b.ok or b.value != want_bytes:
+                return Failure("C10/greedytail/rebuild/%s" % name, "%s build(parse(%s)) -> %r, expected %s | fields=%s" % (name, data.hex(), b, want_bytes.hex(), fields))
+        return None
+    return oracle
+
+
+@st.composite
+def greedy_cases(draw):
+    fields = [f for f in draw(layouts(0)) if f[0] != "zero"]
+    total = sum(width(f) for f in fields)
+    if total > 64:
+        fields, total = [["bits", 3, False, False]], 3
+    n = (total + 7) // 8 + draw(st.integers(0, 2))
+    return [fields, draw(st.binary(min_size=n, max_size=n))]
+
+
+def campaign_greedytail(ctx):
+    ctx.search(greedy_cases(), greedy_oracle(ctx), ctx.budget(4000, 60000))
+campaign_greedytail.shards = (2, 8)
+
+
+CAMPAIGNS = {"enum8": campaign_enum8, "enum16": campaign_enum16, "random": campaign_random, "greedytail": campaign_greedytail}
 
 
 def replay(campaign, case):
@@ -465,5 +520,7 @@ def replay(campaign, case):
     c = _C()
     if campaign == "random":
         return random_oracle(c)(case)
+    if campaign == "greedytail":
+        return greedy_oracle(c)(case)
     fields, data = case
     return check_layout(c, fields, data=data)
